@@ -227,11 +227,73 @@ def run_type(item):
     return res
 
 
+def through_file(item):
+    """Thermocouple scale fed by a Linear scale 0 (the usual DAQmx layout), configured through NI_Scale properties and read
+    through a real file: uV -> C and C -> uV for every type code"""
+    import io
+    import struct
+    from .. import tdmsgen as G
+    from .. import refscale as R
+    letter, seed = item
+    tab = table(letter)
+    res = {'counters': {'file_points': 0}, 'violations': [], 'samples': [], 'worst': {}}
+    ilo, ihi = INV_RANGE[letter]
+    T = [ilo + (ihi - ilo) * k / 40.0 for k in range(41)]
+    s, d, u = R._s, R._d, R._u
+    for direction in (0, 1):
+        for src_spelling in ('scale0', 'raw'):
+            if direction == 0:
+                # stored: volts; scale 0: x 1e6 -> microvolts; scale 1: thermocouple uV -> C
+                raw = [float(v) * 1e-3 for v in ref_forward(tab, np.array(T))]
+                slope, expect, tol = 1e6, T, INV_BOUND[letter] + INV_SLACK + 1e-6
+            else:
+                # stored: kelvin; scale 0: -273.15 -> C; scale 1: thermocouple C -> uV
+                raw = [t + 273.15 for t in T]
+                slope, expect, tol = 1.0, [1000.0 * float(v) for v in ref_forward(tab, np.array(T))], 1e-3
+            if src_spelling == 'scale0':
+                props = [u('NI_Number_Of_Scales', 2), s('NI_Scale[0]_Scale_Type', 'Linear'), d('NI_Scale[0]_Linear_Slope', slope),
+                         d('NI_Scale[0]_Linear_Y_Intercept', -273.15 if direction else 0.0),
+                         s('NI_Scale[1]_Scale_Type', 'Thermocouple'), u('NI_Scale[1]_Thermocouple_Thermocouple_Type', CODES[letter]),
+                         u('NI_Scale[1]_Thermocouple_Scaling_Direction', direction), u('NI_Scale[1]_Thermocouple_Input_Source', 0)]
+                vals = raw
+            else:
+                props = [u('NI_Number_Of_Scales', 1), s('NI_Scale[0]_Scale_Type', 'Thermocouple'),
+                         u('NI_Scale[0]_Thermocouple_Thermocouple_Type', CODES[letter]),
+                         u('NI_Scale[0]_Thermocouple_Scaling_Direction', direction), u('NI_Scale[0]_Thermocouple_Input_Source', 0xFFFFFFFF)]
+                vals = [v * slope + (-273.15 if direction else 0.0) for v in raw]
+            saved = G.POOLS['DoubleFloat']
+            n = len(vals)
+            pool = [struct.pack('<d', v) for v in vals]
+            off = G._path_offset("/'g'/'a'")
+            G.POOLS['DoubleFloat'] = pool[-off % n:] + pool[:-off % n]
+            try:
+                data = G.encode([G.seg([("/'g'/'a'", ['FULL', 'DoubleFloat', n], props)])], seed=0)[0]
+            finally:
+                G.POOLS['DoubleFloat'] = saved
+            for lazy in (False, True):
+                r = H.guarded(lambda: (H.TdmsFile.open if lazy else H.TdmsFile.read)(io.BytesIO(data))['g']['a'][:])
+                res['counters']['file_points'] += n
+                what = 'dir%d %s %s' % (direction, src_spelling, 'lazy' if lazy else 'eager')
+                if r[0] != 'ok':
+                    res['violations'].append({'case': {'type': letter, 'kind': 'file-chain', 'at': what}, 'expected': 'values', 'observed': repr(r),
+                                              'signature': {'kind': 'file-chain-raised', 'type': letter, 'direction': direction, 'src': src_spelling}})
+                    continue
+                got = np.asarray(r[1], dtype=np.float64)
+                dd = np.abs(got - np.array(expect))
+                if len(got) != n or (dd > tol * np.maximum(1.0, np.abs(np.array(expect)) * (1e-9 if direction else 0))).any() and (dd > tol).any():
+                    j = int(np.argmax(dd))
+                    res['violations'].append({'case': {'type': letter, 'kind': 'file-chain', 'at': what}, 'expected': '%r' % expect[j],
+                                              'observed': '%r (stored value %r)' % (float(got[j]), vals[j]),
+                                              'signature': {'kind': 'file-chain-differs', 'type': letter, 'direction': direction, 'src': src_spelling}})
+    return res
+
+
 def run(ctx):
     npts = 100000 if ctx.tier == 'quick' else 200000
     rs = ctx.map(run_type, [(t, npts, ctx.seed) for t in TYPES])
-    viol = [v for r in rs for v in r['violations']]
-    tot = {}
+    rf = ctx.map(through_file, [(t, ctx.seed) for t in TYPES])
+    viol = [v for r in rs + rf for v in r['violations']]
+    tot = {'file_points': sum(r['counters']['file_points'] for r in rf)}
     for r in rs:
         for k, v in r['counters'].items():
             tot[k] = tot.get(k, 0) + v
@@ -245,6 +307,12 @@ def run(ctx):
 
 
 def replay(case):
+    if case.get('kind') == 'file-chain':
+        r = through_file((case['type'], 0))
+        for v in r['violations']:
+            if v['case']['at'] == case['at']:
+                return True, v['expected'], v['observed']
+        return False, 'follows NIST', 'follows NIST'
     r = run_type((case['type'], 100000, 0))
     for v in r['violations']:
         if v['case']['kind'] == case['kind']:
